@@ -9,7 +9,10 @@ import (
 	"sort"
 	"strings"
 
+	"golang.org/x/text/language"
+
 	"seehuhn.de/go/pdf"
+	"seehuhn.de/go/xmp"
 )
 
 // C11 — Copier: source graph generator, the Getter the copier reads from,
@@ -97,9 +100,12 @@ type cpyNode struct {
 	ovObj      pdf.Native
 	ovEdit     map[pdf.Name]pdf.Object
 	virtStm    bool // override object which behaves like a member of an object stream
+	meta       bool // stream with /Type /Metadata
+	noTruth    bool // the stream's filter chain is bogus on purpose: it does not decode to data
 }
 
 type cpyOp struct {
+	catMeta bool // the reference is the source catalog's /Metadata (filled in by buildSource)
 	later  int    // cg/co: the object returned by Copy is written only after this many further operations (0: at once)
 	retry  bool   // inserted by the harness: repeat of a failed CopyReference
 	kind   string // cr cg co rn rt
@@ -127,6 +133,8 @@ type cpyCase struct {
 	longHead        pdf.Reference // its first reference
 	fixedProg       bool          // corpus case: prog is given, not generated
 	tgtOpen         bool          // a stream is open on the target Writer during the whole program
+	srcMeta         int           // catalog metadata of the source: 0 none, 1 ordinary (compressed, encrypted), 2 Plaintext (/EncryptMetadata false when encrypted)
+	catalogMeta     pdf.Reference // the source catalog's /Metadata reference (0: none), set by buildSource
 }
 
 // cpySrc is the Getter handed to the Copier: the real Reader plus the overrides.
@@ -388,6 +396,19 @@ func genCpyCase(seed uint64, thorough bool) *cpyCase {
 	if r.P(1, 2) {
 		cs.tgtPw = "tgt-" + string(rune('a'+r.Intn(26)))
 	}
+	// document-level metadata: only the catalog's /Metadata stream is exempt from encryption when
+	// /EncryptMetadata is false; every other stream (also one with /Type /Metadata) is encrypted
+	switch {
+	case cs.srcVer >= pdf.V1_6 && r.P(1, 2):
+		cs.srcMeta = 2
+		cs.features["catalog-metadata-plaintext"] = true
+		if cs.srcPw != "" {
+			cs.features["encrypt-metadata-false"] = true
+		}
+	case cs.srcVer >= pdf.V1_4 && r.P(1, 3):
+		cs.srcMeta = 1
+		cs.features["catalog-metadata"] = true
+	}
 	cs.srcSeekable = r.P(2, 3)
 	cs.tgtSeekable = r.P(4, 5)
 	cs.tgtHuman = r.P(1, 6)
@@ -479,6 +500,19 @@ func genCpyCase(seed uint64, thorough bool) *cpyCase {
 				key := Pick(r, []pdf.Name{"Type", "Subtype", "A", "Resources", "Next", "Z", "Parent"})
 				nd.dict[key] = cpyObj(r, 2, p)
 			}
+			switch r.Intn(6) {
+			case 0, 1:
+				// a metadata stream which is not the catalog's
+				nd.dict["Type"] = pdf.Name("Metadata")
+				nd.dict["Subtype"] = pdf.Name("XML")
+				nd.meta = true
+				cs.features["noncatalog-metadata"] = true
+			case 2:
+				nd.dict["Type"] = pdf.Name("XObject")
+				nd.dict["Subtype"] = pdf.Name(Pick(r, []string{"Form", "Image"}))
+				cs.features["xobject"] = true
+			}
+			nd.dict["CpyId"] = pdf.Integer(i) // identifies the stream for the ground-truth comparison
 			sz := Pick(r, []int{0, 1, 20, 300, 1023, 1024, 1500, 5000})
 			if r.P(1, 2) {
 				sz = r.Intn(200)
@@ -505,6 +539,7 @@ func genCpyCase(seed uint64, thorough bool) *cpyCase {
 					nd.dict["Filter"] = pdf.Array{pdf.Name("Crypt"), pdf.Name("ASCIIHexDecode")}
 					nd.dict["DecodeParms"] = pdf.Array{pdf.Dict{"Name": cf}, nil}
 				}
+				nd.noTruth = true
 				cs.features["crypt-cf"] = true
 				if cs.srcPw != "" {
 					cs.mayFail = true
@@ -515,6 +550,34 @@ func genCpyCase(seed uint64, thorough bool) *cpyCase {
 			if _, isRef := nd.obj.(pdf.Reference); !isRef && r.P(1, 3) {
 				nd.compressed = true
 				cs.features["objstm"] = true
+			}
+		}
+	}
+
+	// owners: pages, XObjects, images, ... point to their metadata stream with /Metadata
+	var metas []pdf.Reference
+	for _, nd := range cs.nodes {
+		if nd.meta {
+			metas = append(metas, nd.ref)
+		}
+	}
+	if len(metas) > 0 {
+		for _, nd := range cs.nodes {
+			if !r.P(1, 3) {
+				continue
+			}
+			switch nd.kind {
+			case nkObj:
+				if d, ok := nd.obj.(pdf.Dict); ok {
+					d["Metadata"] = Pick(r, metas)
+					if r.P(1, 2) {
+						d["Type"] = pdf.Name(Pick(r, []string{"Page", "Font", "Catalog"}))
+					}
+				}
+			case nkStream:
+				if !nd.meta {
+					nd.dict["Metadata"] = Pick(r, metas)
+				}
 			}
 		}
 	}
@@ -595,6 +658,15 @@ func buildSource(cs *cpyCase) (*cpyBuilt, error) {
 		out = wo
 	}
 	opt := &pdf.WriterOptions{UserPassword: cs.srcPw}
+	if cs.srcMeta != 0 {
+		packet := xmp.NewPacket()
+		dc := &xmp.DublinCore{}
+		dc.Title.Set(language.Und, fmt.Sprintf("source document %d", cs.seed%1000))
+		if err := packet.Set(dc); err != nil {
+			return nil, fmt.Errorf("source metadata: %w", err)
+		}
+		opt.DocumentMetadata = &pdf.MetadataStream{Data: packet, Plaintext: cs.srcMeta == 2}
+	}
 	w, err := pdf.NewWriter(out, cs.srcVer, opt)
 	if err != nil {
 		return nil, fmt.Errorf("source NewWriter: %w", err)
@@ -625,6 +697,15 @@ func buildSource(cs *cpyCase) (*cpyBuilt, error) {
 				if o := remapRefs(nd.ovObj, remap); o != nil {
 					nd.ovObj = o.AsPDF(0)
 				}
+			}
+		}
+		// a given program (corpus case) speaks of the provisional numbers too
+		for i := range cs.prog {
+			if nr, ok := remap[cs.prog[i].ref]; ok {
+				cs.prog[i].ref = nr
+			}
+			if cs.prog[i].obj != nil {
+				cs.prog[i].obj = remapRefs(cs.prog[i].obj, remap)
 			}
 		}
 	}
@@ -677,6 +758,23 @@ func buildSource(cs *cpyCase) (*cpyBuilt, error) {
 	b := &cpyBuilt{cs: cs, srcData: data, reader: rd, S: &cpySrc{r: rd, nodes: map[pdf.Reference]*cpyNode{}}}
 	for _, nd := range cs.nodes {
 		b.S.nodes[nd.ref] = nd
+	}
+	if cs.srcMeta != 0 {
+		if root, ok := rd.GetMeta().Trailer["Root"].(pdf.Reference); ok {
+			if cat, err := rd.Get(root, true); err == nil {
+				if cd, ok := cat.(pdf.Dict); ok {
+					cs.catalogMeta, _ = cd["Metadata"].(pdf.Reference)
+				}
+			}
+		}
+		if cs.catalogMeta == 0 {
+			return nil, fmt.Errorf("source catalog has no /Metadata reference although one was written")
+		}
+	}
+	for i := range cs.prog {
+		if cs.prog[i].catMeta {
+			cs.prog[i].ref = cs.catalogMeta
+		}
 	}
 
 	// indirect /Filter and /DecodeParms: virtual nodes (numbers outside the file)
@@ -802,7 +900,7 @@ func (b *cpyBuilt) sourceView(start []pdf.Reference) []string {
 			continue
 		}
 		if st, ok := v.(*pdf.Stream); ok {
-			raw, enc := b.rawData(st)
+			raw, enc := b.rawData(ref, st)
 			e := "Sp"
 			if enc {
 				e = "Se"
@@ -820,8 +918,10 @@ func (b *cpyBuilt) sourceView(start []pdf.Reference) []string {
 
 // rawData returns the stream bytes after decryption and whether the stream
 // carries a decryption filter (the source file is encrypted).
-func (b *cpyBuilt) rawData(st *pdf.Stream) ([]byte, bool) {
-	enc := b.cs.srcPw != ""
+func (b *cpyBuilt) rawData(ref pdf.Reference, st *pdf.Stream) ([]byte, bool) {
+	// x.crypt != nil: the file is encrypted and the object is not exempt (with /EncryptMetadata
+	// false the Reader reads the catalog's /Metadata stream, and only that one, without decryption)
+	enc := b.cs.srcPw != "" && !pdf.VerifReaderUnencrypted(b.reader, ref)
 	rc, err := pdf.RawStreamReader(b.S, st)
 	if err == nil {
 		raw, err2 := io.ReadAll(rc)
